@@ -315,6 +315,9 @@ type pos struct {
 type positionPolicy struct {
 	inject map[string]sched.Decision // PosKey -> decision
 	seen   []pos
+	// cancelAt: cancel the operation's context when this position is about to run
+	cancelAt string
+	cancel   context.CancelFunc
 }
 
 func (p *positionPolicy) Decide(s *sched.Sim, op sched.Op) sched.Decision {
@@ -323,6 +326,10 @@ func (p *positionPolicy) Decide(s *sched.Sim, op sched.Op) sched.Decision {
 	}
 	k := op.PosKey()
 	p.seen = append(p.seen, pos{key: k, kind: op.Kind, size: op.Size})
+	if p.cancelAt == k && p.cancel != nil {
+		p.cancel()
+		s.Fired("cancel")
+	}
 	if d, ok := p.inject[k]; ok {
 		return d
 	}
@@ -378,14 +385,25 @@ func (r *runner) newDest(c *caseData) *dest {
 
 // exec runs the case's write path once as a simulated process.
 func (r *runner) exec(c *caseData, fifo bool, inject map[string]sched.Decision) (error, map[string]string, *positionPolicy) {
+	return r.execCancel(c, fifo, inject, "")
+}
+
+// execCancel is exec with the context cancelled when the given destination position is reached.
+func (r *runner) execCancel(c *caseData, fifo bool, inject map[string]sched.Decision, cancelAt string) (error, map[string]string, *positionPolicy) {
 	d := r.newDest(c)
-	pol := &positionPolicy{inject: inject}
+	pol := &positionPolicy{inject: inject, cancelAt: cancelAt}
 	r.s.Policy = pol
 	r.s.FIFO = fifo
 	r.s.ResetEpoch()
 	proc := r.s.Proc("w")
 	var werr error
 	r.s.Spawn(proc, func(ctx context.Context) {
+		if cancelAt != "" {
+			var cancel context.CancelFunc
+			ctx, cancel = context.WithCancel(ctx)
+			defer cancel()
+			pol.cancel = cancel
+		}
 		if d.writer != nil {
 			d.writer.ctx = ctx
 		}
@@ -406,6 +424,45 @@ func (r *runner) exec(c *caseData, fifo bool, inject map[string]sched.Decision) 
 		os.RemoveAll(filepath.Dir(d.dir))
 	}
 	return werr, state, pol
+}
+
+// execPre runs the write path with a cancellable context; pre = cancelled before it starts.
+func (r *runner) execPre(c *caseData, pre bool, cancelOut *context.CancelFunc) (error, map[string]string) {
+	d := r.newDest(c)
+	r.s.Policy = &positionPolicy{}
+	r.s.FIFO = false
+	r.s.ResetEpoch()
+	proc := r.s.Proc("w")
+	var werr error
+	r.s.Spawn(proc, func(ctx context.Context) {
+		ctx, cancel := context.WithCancel(ctx)
+		defer cancel()
+		*cancelOut = cancel
+		if pre {
+			cancel()
+			r.s.Fired("cancel")
+		}
+		if d.writer != nil {
+			d.writer.ctx = ctx
+		}
+		werr = c.wp.run(ctx, c, d)
+	})
+	r.s.Run()
+	*cancelOut = nil
+	var state map[string]string
+	if d.writer != nil {
+		state = map[string]string{"<stream>": d.writer.buf.String()}
+	} else {
+		var err error
+		state, err = simfs.Snapshot(context.Background(), d.raw)
+		if err != nil {
+			panic(fmt.Sprintf("harness: snapshot: %v", err))
+		}
+	}
+	if d.dir != "" {
+		os.RemoveAll(filepath.Dir(d.dir))
+	}
+	return werr, state
 }
 
 func diffState(want, got map[string]string) string {
@@ -557,6 +614,49 @@ func Run(tp *tape.Tape, env *engine.Env) *engine.Outcome {
 		}
 		if fired > 0 {
 			states["fault-site"] = append(states["fault-site"], site+"|"+c.dstKind)
+		}
+	}
+	// cancellation in the middle of the operation: success may only be reported if everything is there
+	ncancel := 3
+	if len(refPol.seen) < ncancel {
+		ncancel = len(refPol.seen)
+	}
+	for k := 0; k < ncancel; k++ {
+		p := refPol.seen[tp.Draw("cancelpos", len(refPol.seen))]
+		err, state, _ := r.execCancel(c, false, nil, p.key)
+		counters["cancel_executions"]++
+		s.Event("cancel@%s err=%v", p.key, err != nil)
+		if err == nil {
+			if d := diffState(E, state); d != "" {
+				s.Violate("success-implies-complete", "C15|success-incomplete|"+c.wp.name+"|cancel@"+p.kind,
+					"%s (dst=%s atomic=%v) returned nil after its context was cancelled at %s but output differs: %s", c.wp.name, c.dstKind, c.atomic, p.key, d)
+			}
+		}
+	}
+	// cancellation at an arbitrary scheduling step - also before the operation starts (step 0) and
+	// between the dispatch of a parallel job and its first action (job start / end are steps here)
+	for k := 0; k < 3; k++ {
+		step := tp.Draw("cancelstep", 2*len(refPol.seen)+3)
+		s.YieldJobs = true
+		n := 0
+		var cancelNow context.CancelFunc
+		s.BeforeRelease = func(op sched.Op) {
+			n++
+			if n == step && cancelNow != nil {
+				cancelNow()
+				s.Fired("cancel")
+			}
+		}
+		err, state := r.execPre(c, step == 0, &cancelNow)
+		s.BeforeRelease = nil
+		s.YieldJobs = false
+		counters["cancel_executions"]++
+		s.Event("cancel@step%d err=%v", step, err != nil)
+		if err == nil {
+			if d := diffState(E, state); d != "" {
+				s.Violate("success-implies-complete", "C15|success-incomplete|"+c.wp.name+"|cancel@step",
+					"%s (dst=%s atomic=%v par=%d) returned nil after its context was cancelled at scheduling step %d but output differs: %s", c.wp.name, c.dstKind, c.atomic, c.par, step, d)
+			}
 		}
 	}
 	s.Drain()
